@@ -1,6 +1,7 @@
 package chain
 
 import (
+	"sort"
 	"bytes"
 	"compress/gzip"
 	"encoding/base64"
@@ -246,7 +247,8 @@ func (g *Gen) Next(parent *Blk, st *State) *Draft {
 		}
 		// CASM hash migration (>= 0.14.1): a class declared with a V1 hash gets its V2 hash
 		if !g.Opt.NoMigration && VersionAtLeast(ver, "0.14.1") && r.IntN(3) == 0 {
-			for h, ci := range st.Classes {
+			for _, h := range sortedHashes(st.Classes) { // map order would make the chain depend on more than the seed
+				ci := st.Classes[h]
 				if ci.Sierra && ci.CasmV1 != nil && ci.MigratedAt == nil && ci.CasmV2 != nil {
 					sd.MigratedClasses[felt.SierraClassHash(h)] = felt.CasmClassHash(*ci.CasmV2)
 					break
@@ -255,12 +257,12 @@ func (g *Gen) Next(parent *Blk, st *State) *Draft {
 		}
 		// contracts
 		classPool := []felt.Felt{*F(0xc1), *F(0xc2), *F(0xc3)}
-		for h := range st.Classes {
+		for _, h := range sortedHashes(st.Classes) {
 			if len(classPool) < 8 {
 				classPool = append(classPool, h)
 			}
 		}
-		for h := range classes { // deploy a class declared in this very block
+		for _, h := range sortedHashes(classes) { // deploy a class declared in this very block
 			classPool = append(classPool, h)
 		}
 		for _, a := range g.Opt.Contracts {
@@ -508,4 +510,15 @@ func (g *Gen) receipt(tx core.Transaction, h *felt.Felt) *core.TransactionReceip
 		}
 	}
 	return rc
+}
+
+// sortedHashes returns the keys of a felt-keyed map in ascending order: every choice the
+// generator makes must be a function of the seed alone (replays re-generate the case).
+func sortedHashes[V any](m map[felt.Felt]V) []felt.Felt {
+	out := make([]felt.Felt, 0, len(m))
+	for h := range m {
+		out = append(out, h)
+	}
+	sort.Slice(out, func(i, j int) bool { return out[i].Cmp(&out[j]) < 0 })
+	return out
 }
